@@ -217,3 +217,43 @@ Definition monitor_fail (c : case) : bool :=
             && forallb task_ok (ps_tasks s) && forallb status_ok (ps_tasks s)
             && forallb (exp_ok ws) (ps_warnings s) && forallb (exp_ok ns) (ps_notices s))
   end.
+
+(* ------------------------------------------------------------------ histories: Prune interleaved with the state-changing steps *)
+(* the steps that build the part of the state Prune looks at: NewChange, NewTask (+ AddTask when the change exists), a status
+   write, a ready-time write (what the engine does when a change becomes ready or an abort marks it), AddWarning / AddNotice,
+   and Prune itself with any clock and parameters. Identifiers are fresh with respect to everything present. *)
+Definition maxl (l : list N) : N := fold_right N.max 0%N l.
+Definition next_change (s : pstate) : N := N.succ (maxl (map pc_id (ps_changes s))).
+Definition next_task (s : pstate) : N := N.succ (N.max (maxl (map pt_id (ps_tasks s))) (maxl (concat (map pc_tasks (ps_changes s))))).
+
+Inductive hop :=
+| HNewChange (spawn : Z) (attrs : list N)
+| HNewTask (c : N) (spawn : Z) (st : N)
+| HSetStatus (t st : N)
+| HSetReady (c : N) (r : option Z)
+| HAddWarning (x : pexp)
+| HAddNotice (x : pexp)
+| HPrune (p : params).
+
+Definition hstep (s : pstate) (o : hop) : pstate :=
+  match o with
+  | HNewChange spawn attrs =>
+      mkPS (ps_changes s ++ [mkPC (next_change s) spawn None [] attrs]) (ps_tasks s) (ps_warnings s) (ps_notices s)
+  | HNewTask c spawn st =>
+      let tid := next_task s in
+      if existsb (fun x => (pc_id x =? c)%N) (ps_changes s)
+      then mkPS (map (fun x => if (pc_id x =? c)%N then mkPC (pc_id x) (pc_spawn x) (pc_ready x) (pc_tasks x ++ [tid]) (pc_attrs x) else x)
+                     (ps_changes s))
+                (ps_tasks s ++ [mkPT tid st spawn c]) (ps_warnings s) (ps_notices s)
+      else mkPS (ps_changes s) (ps_tasks s ++ [mkPT tid st spawn 0%N]) (ps_warnings s) (ps_notices s)
+  | HSetStatus t st =>
+      mkPS (ps_changes s) (map (fun x => if (pt_id x =? t)%N then mkPT (pt_id x) st (pt_spawn x) (pt_change x) else x) (ps_tasks s))
+           (ps_warnings s) (ps_notices s)
+  | HSetReady c r =>
+      mkPS (map (fun x => if (pc_id x =? c)%N then mkPC (pc_id x) (pc_spawn x) r (pc_tasks x) (pc_attrs x) else x) (ps_changes s))
+           (ps_tasks s) (ps_warnings s) (ps_notices s)
+  | HAddWarning x => mkPS (ps_changes s) (ps_tasks s) (ps_warnings s ++ [x]) (ps_notices s)
+  | HAddNotice x => mkPS (ps_changes s) (ps_tasks s) (ps_warnings s) (ps_notices s ++ [x])
+  | HPrune p => let r := prune p s in mkPS (r_changes r) (r_tasks r) (r_warnings r) (r_notices r)
+  end.
+Definition hrun (ops : list hop) : pstate := fold_left hstep ops (mkPS [] [] [] []).
